@@ -274,7 +274,7 @@ Proof.
     destruct (broadcast n3 _ _) as [m fx]. cbn [fst] in *. eapply ap_same; [| | |exact G1]; reflexivity. }
   destruct (if (n_next_peers n3 <=? now)%Z then _ else _) as [n4 fx4]. cbn [fst] in *.
   pose proof (reconnect_step_ap c salts now n4 H4) as N5. destruct (reconnect_step salts now n4) as [n5 fx5]. cbn [fst] in *.
-  destruct (n_next_own_reset n5 <=? now)%Z; [eapply ap_same; [| | |exact N5]; reflexivity|exact N5].
+  destruct (negb (c_hkfault (n_cfg n5)) && (n_next_own_reset n5 <=? now)%Z); [eapply ap_same; [| | |exact N5]; reflexivity|exact N5].
 Qed.
 
 Theorem step_ap : forall c salts now n e, AllPC c n -> AllPC c (fst (step salts now n e)).
